@@ -141,7 +141,13 @@ def frameDiffs (nw : Network) (op : SOp) (pre post : Schedule) (retPath : Option
       chk (if displaced.isEmpty then nd.isEmpty && retDummy.isNone
            else nd == [Veh.dum pre.counter] && retDummy == some (Veh.dum pre.counter) && nodesOf post (Veh.dum pre.counter) == some displaced) "override-displaced-trips-in-new-dummy" ++
       chk (othersUntouched pre post (p :: r :: nd)) "override-others-untouched" ++
-      chk (formationsUntouched nw pre post (sl ++ dropped) && formationRule nw pre post) "override-formations"
+      chk (formationsUntouched nw pre post (sl ++ dropped) && formationRule nw pre post &&
+           -- on every moved activity the (real) receiver is listed and the (real) provider is not;
+           -- on every displaced activity that was not moved the receiver is no longer listed
+           (activitiesOf nw sl).all (fun n =>
+             (!(pre.isVehicle r) || (post.formationOf n).contains r) &&
+             (p == r || !(pre.isVehicle p) || !((post.formationOf n).contains p))) &&
+           (activitiesOf nw dropped).all (fun n => sl.contains n || !((post.formationOf n).contains r))) "override-formations"
   | .fit p r a b =>
     let pn := (nodesOf pre p).getD []
     let rn := (nodesOf pre r).getD []
@@ -159,7 +165,11 @@ def frameDiffs (nw : Network) (op : SOp) (pre post : Schedule) (retPath : Option
            else (post.tourOf? p).isNone) "fit-provider-loses-exactly-moved-nodes" ++
       chk ((newDummyOf pre post).isEmpty && pre.counter == post.counter) "fit-no-new-dummy" ++
       chk (othersUntouched pre post [p, r]) "fit-others-untouched" ++
-      chk (formationsUntouched nw pre post sl && formationRule nw pre post) "fit-formations"
+      chk (formationsUntouched nw pre post sl && formationRule nw pre post &&
+           -- on every moved activity the (real) receiver is listed and the (real) provider is not
+           (activitiesOf nw moved).all (fun n =>
+             (!(pre.isVehicle r) || (post.formationOf n).contains r) &&
+             (p == r || !(pre.isVehicle p) || !((post.formationOf n).contains p)))) "fit-formations"
   | .improve _ => chk (depotOnly nw pre post) "improve-depot-only"
   | .endGreedy =>
     chk (depotOnly nw pre post && pre.tours.all (fun (v, t) => (post.tourOf? v).map (·.nodes.head?) == some t.nodes.head?)) "endgreedy-end-depot-only"
